@@ -69,6 +69,8 @@ class ScriptedBackend(object):
 
     def solve(self):
         type(self).SOLVES += 1
+        if type(self).SOLVES > 400:
+            raise HorizonExceeded("more than 400 backend solves in one Solver.solve")
         if not self.alive:
             return False
         env = self.alive[type(self).TAPE.choose(len(self.alive))]
@@ -180,6 +182,10 @@ def run_z3(part, typing, S, keymask):
 
 
 # ---- text-protocol routes -----------------------------------------------------------
+class HorizonExceeded(Exception):
+    pass
+
+
 class WireEnv(object):
     """Installs the reference external solver behind every entry point of the sugar family."""
 
@@ -187,8 +193,12 @@ class WireEnv(object):
         self.tape = None
         self.calls = []
 
+    HORIZON = 400  # external-solver calls per execution; the longest legal refinement needs #keys + 2
+
     def answer(self, text):
         self.calls.append(text)
+        if len(self.calls) > self.HORIZON:
+            raise HorizonExceeded("more than %d external solver calls in one solve" % self.HORIZON)
         prog = sugar_model.parse(text)
         ms = sugar_model.models(prog)
         if prog.keys is None:
